@@ -1161,6 +1161,26 @@ fn dump_all<'tcx>(tcx: TyCtxt<'tcx>, krate: &str, kind: &str) -> String {
         d.j.comma();
         d.j.kv_raw("pid", &format!("{}", std::process::id()));
         d.j.comma();
+        // 1. Clone every built MIR body BEFORE anything else is queried: printing types, signatures or
+        //    evaluating constants can trigger borrowck/promotion of some body, which steals its mir_built.
+        let mut cloned: Vec<(LocalDefId, mir::Body<'tcx>)> = Vec::new();
+        let mut stolen = 0usize;
+        for def in tcx.hir_body_owners() {
+            let kind = tcx.def_kind(def);
+            if matches!(kind, DefKind::AnonConst | DefKind::InlineConst) {
+                // array lengths / inline consts: not needed
+                continue;
+            }
+            let steal = tcx.mir_built(def);
+            if steal.is_stolen() {
+                stolen += 1;
+                continue;
+            }
+            let b: mir::Body<'tcx> = steal.borrow().clone();
+            cloned.push((def, b));
+        }
+        d.j.kv_raw("stolen", &format!("{}", stolen));
+        d.j.comma();
         d.adts();
         d.j.comma();
         d.impls();
@@ -1170,18 +1190,8 @@ fn dump_all<'tcx>(tcx: TyCtxt<'tcx>, krate: &str, kind: &str) -> String {
         d.j.key("bodies");
         d.j.raw("[");
         let mut n = 0usize;
-        for def in tcx.hir_body_owners() {
-            let kind = tcx.def_kind(def);
-            if matches!(kind, DefKind::AnonConst | DefKind::InlineConst) {
-                // array lengths / inline consts: not needed and may already be evaluated
-                continue;
-            }
-            let steal = tcx.mir_built(def);
-            if steal.is_stolen() {
-                continue;
-            }
-            let body = steal.borrow();
-            d.body(def, &body);
+        for (def, body) in cloned.iter() {
+            d.body(*def, body);
             d.j.comma();
             n += 1;
         }
